@@ -17,4 +17,5 @@ pub mod c07l2;
 pub mod c07l1;
 pub mod c07shape;
 pub mod c07upd;
+pub mod c19;
 pub mod selftest;
